@@ -112,7 +112,10 @@ func (e *ExecutionConfig) ProposerConfig(_ context.Context,
 
 	// At this point we definitely have a proposer config, however
 	// if it was the default config it is possible that some elements
-	// are missing.  Fill them in here.
+	// are missing.  Fill them in here, on a copy: the configuration
+	// itself is shared between concurrent callers.
+	filledConfig := *proposerConfig
+	proposerConfig = &filledConfig
 	if proposerConfig.GasLimit == 0 {
 		proposerConfig.GasLimit = fallbackGasLimit
 	}
